@@ -2,5 +2,6 @@ pub mod kv;
 pub mod prefix;
 pub mod addr;
 pub mod bank;
+#[cfg(feature = "builder")]
 pub mod builder;
 pub mod tree;
